@@ -16,6 +16,7 @@ import EaselModel.Shuffle.LemmasProgress
 import EaselModel.Shuffle.LemmasIndex
 import EaselModel.Shuffle.LemmasStorage
 import EaselModel.Shuffle.LawfulRat
+import EaselModel.Shuffle.MarkovRat
 /-! # C18 — property theorems (statements + glue only; lemmas live in Shuffle/*.lean)
 
 Every theorem quantifies over every input and every generator state `r : Rng` (hence every seed and every history of
@@ -766,6 +767,74 @@ theorem xMarkov1_spec (dsq : Bytes) (L K : Nat) (hL : L + 2 ≤ dsq.size) (r : R
 end numeric
 
 
+/-! ## `esl_fatal("unreached code was reached")` is unreachable (exact arithmetic)
+
+`esl_rnd_DChoose` ends in `esl_fatal` when its scan falls off the vector; the theorems above only speak about runs that
+return `eslOK`. Read over ℚ (the proved instance of `LawfulCNum`), for EVERY input and EVERY generator state the Markov
+resamplers return `eslEINVAL` (exactly on invalid residues) or `eslOK`, never the fatal branch. For `Markov1` this is the
+content of the circularisation `p[x][i0] += 1.0` (`utest_markov1_bug`): a residue that occurs only at the end of the input still
+has an outgoing pair, so the chain can never move to a row of zeros. The count matrix is characterised exactly on the
+way (`markov1Counts_exact`: entry `(x,y)` = number of circular adjacent pairs `(x,y)`). binary64 needs one more IEEE fact
+for this (`norm / norm = 1.0` for a finite positive `norm`; the two loops of `DChoose` add the same numbers in the same
+order); the differential run has never seen the fatal branch (it would be a `fault` line). -/
+
+/-- `esl_rnd_DChoose` over ℚ: roll in `[0,1)`, non-negative entries, positive sum ⇒ it returns an index in range whose
+    entry is positive -/
+theorem dchoose_returns (u : ℚ) (hu0 : 0 ≤ u) (hu1 : u < 1) (p : List ℚ) (hp : ∀ q ∈ p, 0 ≤ q) (hs : 0 < p.sum) :
+    ∃ k, dchoose u p = some k ∧ k < p.length ∧ ∃ q, p[k]? = some q ∧ 0 < q :=
+  dchoose_total u hu0 hu1 p hp hs
+
+/-- **the chooser is the inverse CDF** (exact arithmetic): `esl_rnd_DChoose` returns `k` only for a roll in
+    `[ (p₀+…+p_{k-1})/Σp , (p₀+…+p_k)/Σp )`, an interval of length `p_k/Σp` — under a uniform roll, `k` has probability `p_k/Σp`
+    (with `dchoose_returns`: the brackets partition `[0,1)`, every roll is in exactly one) -/
+theorem dchoose_inverse_cdf (u : ℚ) (hu0 : 0 ≤ u) (p : List ℚ) (hs : 0 < p.sum) (k : Nat) (h : dchoose u p = some k) :
+    (p.take k).sum / p.sum ≤ u ∧ u < (p.take (k+1)).sum / p.sum :=
+  dchoose_bracket u hu0 p hs k h
+
+/-- the emission vector of `esl_rsq_{C,X}Markov0` is exactly the input's residue frequencies `count(k) / L` -/
+theorem markov0_frequencies_exact (K : Nat) (codes : List Nat) (hne : codes ≠ []) (k : Nat) :
+    (markov0P (α := ℚ) K codes)[k]? = if k < K then some ((codes.count k : ℚ) / (codes.length : ℚ)) else none :=
+  markov0P_getElem? K codes hne k
+
+/-- the conditional row `p[x]` of `esl_rsq_{C,X}Markov1` for a residue `x` of the input is exactly
+    `count of circular pairs (x,y) / count of circular pairs (x,·)` -/
+theorem markov1_conditional_exact (K c0 : Nat) (rest : List Nat) (hK : ∀ c ∈ c0 :: rest, c < K) (x : Nat) (hx : x ∈ c0 :: rest) :
+    (((markov1P (c0 :: rest).length (markov1Counts (α := ℚ) K (c0 :: rest))).1)[x]!).toList =
+      (rowL K (c0 :: rest) x).map (fun v => v / (rowL K (c0 :: rest) x).sum) ∧ 0 < (rowL K (c0 :: rest) x).sum :=
+  ⟨markov1P_row K c0 rest x (hK x hx) (rowL_sum_pos K _ hK x hx), rowL_sum_pos K _ hK x hx⟩
+
+/-- `esl_rsq_IID / fIID / xIID / xfIID` (and `esl_rsq_SampleDirty` with a provided vector) over ℚ never fall through -/
+theorem iid_never_fatal (p : List ℚ) (hp : ∀ q ∈ p, 0 ≤ q) (hs : 0 < p.sum) (L : Nat) (r : Rng) :
+    ∃ out, (iidLoop p L r #[]).1 = some out :=
+  iidLoop_total p hp hs L r #[]
+
+/-- exact first-order counts: entry `(x, y)` is the number of occurrences of `(x, y)` among the circular adjacent pairs -/
+theorem markov1_counts_exact (K c0 : Nat) (rest : List Nat) (x y : Nat) :
+    ent (markov1Counts (α := ℚ) K (c0 :: rest)) x y =
+      if x < K ∧ y < K then some (((circPairs (c0 :: rest)).count (x, y) : Nat) : ℚ) else none :=
+  markov1Counts_exact K c0 rest x y
+
+theorem cMarkov0_einval_or_ok (s : Bytes) (r : Rng) :
+    ((cMarkov0 ℚ s r).1 = .einval ∧ s.any (fun c => !isAlpha c) = true) ∨
+    (¬ (s.any (fun c => !isAlpha c) = true) ∧ ∃ out, (cMarkov0 ℚ s r).1 = .ok out) :=
+  cMarkov0_total s r
+
+theorem xMarkov0_einval_or_ok (dsq : Bytes) (L K : Nat) (r : Rng) :
+    ((xMarkov0 ℚ dsq L K r).1 = .einval ∧ (digitalCodes dsq L).any (fun c => c ≥ K) = true) ∨
+    (¬ ((digitalCodes dsq L).any (fun c => c ≥ K) = true) ∧ ∃ out, (xMarkov0 ℚ dsq L K r).1 = .ok out) :=
+  xMarkov0_total dsq L K r
+
+/-- **`esl_rsq_CMarkov1` never reaches `esl_fatal`** (the `markov1_bug` family, for every input) -/
+theorem cMarkov1_einval_or_ok (s : Bytes) (r : Rng) :
+    ((cMarkov1 ℚ s r).1 = .einval ∧ s.any (fun c => !isAlpha c) = true) ∨
+    (¬ (s.any (fun c => !isAlpha c) = true) ∧ ∃ out, (cMarkov1 ℚ s r).1 = .ok out) :=
+  cMarkov1_total s r
+
+theorem xMarkov1_einval_or_ok (dsq : Bytes) (L K : Nat) (hL : L + 2 ≤ dsq.size) (r : Rng) :
+    ((xMarkov1 ℚ dsq L K r).1 = .einval ∧ (digitalCodes dsq L).any (fun c => c ≥ K) = true) ∨
+    (¬ ((digitalCodes dsq L).any (fun c => c ≥ K) = true) ∧ ∃ out, (xMarkov1 ℚ dsq L K r).1 = .ok out) :=
+  xMarkov1_total dsq L K hL r
+
 /-- the vector that `esl_rsq_SampleDirty` samples when the caller provides none (binary64 model, executed by the driver)
     has `Kp` entries and is exactly `0.0` at the gap, nonresidue and missing-data codes: the hypotheses of
     `sampleDirty_never_gap` hold for it by construction -/
@@ -841,5 +910,13 @@ example : (cShuffleOut (#[1, 2, 3] : Array Nat) (.separate #[9, 9, 9]) (Rng.crea
 
 /-- a seeded generator is such a state -/
 example : (Rng.create .mersenne 42).kind = .mersenne ∧ (Rng.create .mersenne 42).st.mt.size = 624 := by decide +kernel
+
+/-- hypotheses of `dchoose_returns` / `iid_never_fatal` on a concrete vector; the markov1_bug input `AAAAAAAAAB` has the pair
+    `(B, A)` only through the circularisation -/
+example : (∀ q ∈ ([0, 1/4, 3/4, 0] : List ℚ), 0 ≤ q) ∧ 0 < ([0, 1/4, 3/4, 0] : List ℚ).sum := by
+  constructor
+  · intro q hq; simp at hq; rcases hq with h | h | h | h <;> rw [h] <;> norm_num
+  · norm_num
+example : (1, 0) ∈ circPairs [0,0,0,0,0,0,0,0,0,1] ∧ (1, 0) ∉ adjPairs [0,0,0,0,0,0,0,0,0,1] := by decide
 
 end EaselModel.Props.C18
